@@ -1566,6 +1566,11 @@ class PackRepository(MetaDirVersionedFileRepository):
             self._unstacked_provider.disable_cache()
             self._transaction = None
             self._write_lock_count = 0
+            if not self.is_locked():
+                # this was the last lock: release the fallback repositories
+                # too before reporting the misuse, as the normal path does.
+                for repo in self._fallback_repositories:
+                    repo.unlock()
             raise errors.BzrError(
                 f"Must end write group before releasing write lock on {self}"
             )
